@@ -108,11 +108,15 @@ def encKids {α : Type} (k : Nat) (enc1 : Cnt → α → Res) : List α → Cnt 
 
 /-- the elements a format lays out for one fiber, in order, with their payloads:
     U walks all positions (`a.getPayload(i) for i in range(dim_len)`, absent → default),
-    C and B iterate the fiber (`for ind, val in a`: the non-empty elements) -/
-def elemsOf {π : Type} (f : Fmt) (dim : Nat) (dflt : π) (isE : π → Bool) (a : Fib Int π) : Fib Int π :=
+    C and B iterate the fiber (`for ind, val in a`): the non-empty elements when the tensor's
+    rank has format "C" (`iterOccupancy`), every position of the rank's own extent `tdim`
+    when it has format "U" (`hu`; `iterActiveShape`: `getPayload(c) for c in range(shape)`) -/
+def elemsOf {π : Type} (f : Fmt) (hu : Bool) (dim tdim : Nat) (dflt : π) (isE : π → Bool) (a : Fib Int π) :
+    Fib Int π :=
   match f with
   | .U => (irange dim).map (fun i => (i, (lookup a i).getD dflt))
-  | _ => a.filter (fun e => !isE e.2)
+  | _ => if hu then (irange tdim).map (fun i => (i, (lookup a i).getD dflt))
+         else a.filter (fun e => !isE e.2)
 
 /-- what goes into the rank's coordinate array: nothing (U), the coordinates (C), the mask (B) -/
 def storedCoords (f : Fmt) (dim : Nat) (ec : List Int) : List Int :=
@@ -131,13 +135,15 @@ def emptyT (d : Nat) : Tree Int Int (d + 1) := (show List (Int × Tree Int Int d
 /-- `Codec.encode(depth, a, …)` for a fiber with `d` ranks below it.
     `fs` / `tsh` / `ish` are the descriptor, the tensor's own shape and the imposed shape
     from this rank downwards; `pidx` is `len(output_tensor[depth])` (what U returns as its
-    "occupancy"). -/
-def encF : (d : Nat) → List Fmt → List Nat → Option (List Nat) → Nat → Cnt → Tree Int Int (d + 1) → Res
+    "occupancy").  `hu k` = the tensor's rank with `k` ranks below it has format "U";
+    `dflt` = the tensor's default value. -/
+def encF (hu : Nat → Bool) (dflt : Int) :
+    (d : Nat) → List Fmt → List Nat → Option (List Nat) → Nat → Cnt → Tree Int Int (d + 1) → Res
   | 0, fs, tsh, ish, pidx, cnt, a =>
     let f := fs.headD .U
     let dim := dimOf tsh ish
     let me := cnt.headD (0, 0)
-    let els := elemsOf f dim (0 : Int) (fun v => decide (v = 0)) (show Fib Int Int from a)
+    let els := elemsOf f (hu 0) dim (tsh.headD 0) dflt (fun v => decide (v = dflt)) (show Fib Int Int from a)
     let n := els.length
     let stored := storedCoords f dim (els.map (·.1))
     let occ := match f with | .U => pidx | _ => n
@@ -150,11 +156,11 @@ def encF : (d : Nat) → List Fmt → List Nat → Option (List Nat) → Nat →
     let g := fs.tail.headD .U
     let dim := dimOf tsh ish
     let me := cnt.headD (0, 0)
-    let els := elemsOf f dim (emptyT d) (isEmpty (κ := Int) (0 : Int) (d + 1))
+    let els := elemsOf f (hu (d + 1)) dim (tsh.headD 0) (emptyT d) (isEmpty (κ := Int) dflt (d + 1))
                  (show Fib Int (Tree Int Int (d + 1)) from a)
     let n := els.length
     let ishK := ishNext f ish
-    let K := encKids (d + 1) (encF d fs.tail tsh.tail ishK me.1) (els.map (·.2)) cnt.tail 0
+    let K := encKids (d + 1) (encF hu dflt d fs.tail tsh.tail ishK me.1) (els.map (·.2)) cnt.tail 0
     let occs := if g.explicit then K.cums else []
     let stored := storedCoords f dim (els.map (·.1))
     let occ := match f with | .U => pidx | _ => n
@@ -173,9 +179,9 @@ structure Encoded where
   fibs : List (List EFib)
   deriving Repr, Inhabited
 
-def encode (d : Nat) (fs : List Fmt) (tsh : List Nat) (ish : Option (List Nat)) (t : Tree Int Int (d + 1)) :
-    Encoded :=
-  let r := encF d fs tsh ish 0 (List.replicate (d + 1) (0, 0)) t
+def encode (hu : Nat → Bool) (dflt : Int) (d : Nat) (fs : List Fmt) (tsh : List Nat) (ish : Option (List Nat))
+    (t : Tree Int Int (d + 1)) : Encoded :=
+  let r := encF hu dflt d fs tsh ish 0 (List.replicate (d + 1) (0, 0)) t
   let f0 := fs.headD .U
   let root : List Int := if f0.explicit then [(r.occ : Int)] else []
   ⟨root, r.cs, r.ps, r.fibs⟩
@@ -229,13 +235,13 @@ def decKids (dec1 : Nat → List (List Int) → List (List Int) → DRes) :
 
 /-- decode the next fiber of the rank with `d` ranks below it from the remaining per-rank
     arrays; `n` = its number of elements as told by the rank above (used by C only) -/
-def decF : (d : Nat) → List Fmt → List Nat → Nat → List (List Int) → List (List Int) → DRes
+def decF (dflt : Int) : (d : Nat) → List Fmt → List Nat → Nat → List (List Int) → List (List Int) → DRes
   | 0, fs, shs, n, cs, ps =>
     let f := fs.headD .U
     let tc := takeCoords f (shs.headD 0) n (cs.headD [])
     let m := tc.1.length
     let p := ps.headD []
-    ⟨((tc.1.zip (p.take m)).filter (fun e => !decide (e.2 = 0))).map (fun e => ([e.1], e.2)),
+    ⟨((tc.1.zip (p.take m)).filter (fun e => !decide (e.2 = dflt))).map (fun e => ([e.1], e.2)),
       [tc.2], [p.drop m]⟩
   | d + 1, fs, shs, n, cs, ps =>
     let f := fs.headD .U
@@ -245,7 +251,7 @@ def decF : (d : Nat) → List Fmt → List Nat → Nat → List (List Int) → L
     let p := ps.headD []
     let sizes := if g.explicit then diffs 0 (p.take m) else List.replicate m 0
     let p' := if g.explicit then p.drop m else p
-    let K := decKids (decF d fs.tail shs.tail) (tc.1.zip sizes) cs.tail ps.tail
+    let K := decKids (decF dflt d fs.tail shs.tail) (tc.1.zip sizes) cs.tail ps.tail
     ⟨K.cont, tc.2 :: K.cs, p' :: K.ps⟩
 
 /-- the shape a decoder is told: the imposed one if there is one, else the tensor's -/
@@ -253,11 +259,11 @@ def declShape (tsh : List Nat) (ish : Option (List Nat)) : List Nat := ish.getD 
 
 /-- executable specification of "the arrays lose nothing": `payloads_root` holds the size of
     the top fiber iff the top format needs it, the arrays decode to `cont`, nothing is left -/
-def decodesTo (d : Nat) (fs : List Fmt) (shs : List Nat) (root : List Int) (cs ps : List (List Int))
+def decodesTo (dflt : Int) (d : Nat) (fs : List Fmt) (shs : List Nat) (root : List Int) (cs ps : List (List Int))
     (cont : Content) : Bool :=
   let f0 := fs.headD .U
   let n := (root.headD 0).toNat
-  let r := decF d fs shs n cs ps
+  let r := decF dflt d fs shs n cs ps
   decide (root.length = if f0.explicit then 1 else 0) &&
   decide (cs.length = d + 1) && decide (ps.length = d + 1) &&
   decide (r.cont = cont) && r.cs.all (·.isEmpty) && r.ps.all (·.isEmpty)
@@ -333,6 +339,18 @@ def EFib.scan (F : EFib) : List (Option Int × Option Nat) :=
           | some h => scanFrom F F.coords.length h
           | none => []
   | .B => scanBits F F.coords 0 0
+
+/-- `setupSlice(b)` then `nextInSlice()` until None: U and C start at `coordToHandle(b)`,
+    B starts at mask position `b` with the payload handle `countLeft(b)` (set bits before `b`) -/
+def EFib.scanBase (F : EFib) (b : Nat) : List (Option Int × Option Nat) :=
+  match F.fmt with
+  | .U => match F.coordToHandle b with
+          | some h => scanFrom F F.shape h
+          | none => []
+  | .C => match F.coordToHandle b with
+          | some h => scanFrom F F.coords.length h
+          | none => []
+  | .B => scanBits F (F.coords.drop b) b ((F.coords.take b).foldl (· + ·) 0).toNat
 
 /-- `getSize()`; `none` = an `assert` fires (CoordinateList checks one payload per coordinate
     when the rank below is explicit) -/
@@ -411,10 +429,14 @@ def EFib.elemsSpec (F : EFib) : List (Option Int × Option Int) :=
                | none => some (F.vals.getD e.2 0)
                | some _ => some ((F.kid0 + e.2 : Nat) : Int)))
 
+/-- a slice from coordinate `b` has to deliver the elements at coordinates `≥ b` -/
+def EFib.elemsSpecFrom (F : EFib) (b : Nat) : List (Option Int × Option Int) :=
+  F.elemsSpec.filter (fun e => match e.1 with | some c => decide ((b : Int) ≤ c) | none => true)
+
 /-- depth-first walk of the encoded tensor through the handle interface: scan the fiber at
-    position `idx` of the first rank list; a leaf element yields its value (zeros are not content),
+    position `idx` of the first rank list; a leaf element yields its value (defaults are not content),
     an element above the leaf rank continues in the fiber its payload designates -/
-def walkM : List (List EFib) → Nat → Content
+def walkM (dflt : Int) : List (List EFib) → Nat → Content
   | [], _ => []
   | R :: rest, idx =>
     let F := R.getD idx default
@@ -422,8 +444,8 @@ def walkM : List (List EFib) → Nat → Content
       match e.1, e.2 with
       | some c, some res =>
         (match F.next with
-         | none => if res = 0 then [] else [([c], res)]
-         | some _ => (walkM rest res.toNat).map (fun pv => (c :: pv.1, pv.2)))
+         | none => if res = dflt then [] else [([c], res)]
+         | some _ => (walkM dflt rest res.toNat).map (fun pv => (c :: pv.1, pv.2)))
       | _, _ => [])
 
 /-! ### Model-domain guard -/
@@ -434,12 +456,11 @@ def inShape : (d : Nat) → List Nat → Tree Int Int d → Bool
   | d + 1, sh, f => (show List (Int × Tree Int Int d) from f).all
       (fun e => decide (0 ≤ e.1) && decide (e.1 < (sh.headD 0 : Nat)) && inShape d sh.tail e.2)
 
-/-- all coordinates lie inside the extent their rank is actually laid out with -/
-def inEff : (d : Nat) → List Fmt → List Nat → Option (List Nat) → Tree Int Int d → Bool
-  | 0, _, _, _, _ => true
-  | d + 1, fs, tsh, ish, f => (show List (Int × Tree Int Int d) from f).all
-      (fun e => decide (0 ≤ e.1) && decide (e.1 < (dimOf tsh ish : Nat)) &&
-        inEff d fs.tail tsh.tail (ishNext (fs.headD .U) ish) e.2)
+/-- every rank is laid out with an extent at least as large as the tensor's own
+    (`assert dim_len >= a.getShape()[0]`) -/
+def dimsOK : List Fmt → List Nat → Option (List Nat) → Bool
+  | [], _, _ => true
+  | f :: fs, tsh, ish => decide (tsh.headD 0 ≤ dimOf tsh ish) && dimsOK fs tsh.tail (ishNext f ish)
 
 def shapeGe : List Nat → List Nat → Bool
   | [], [] => true
